@@ -154,7 +154,7 @@ package log
 //@   requires fn != nil
 //@   let l = loggerOf(tag)
 //@   let on = enable(Logger.GetLevel(l), TraceLevel)
-//@   modifies appended[l], lastLevel[l], lastTag[l], lastFields[l], lastFile[l], lastLine[l], lastTime[l], lastCtxString[l], lastCtxFields[l], all(Event), calls(TimeNow), calls(StringFromContext), calls(FieldsFromContext), calls(fn)
+//@   modifies appended[l], lastLevel[l], lastTag[l], lastFields[l], lastFile[l], lastLine[l], lastTime[l], lastCtxString[l], lastCtxFields[l], all(Event), calls(TimeNow), calls(StringFromContext), calls(FieldsFromContext), calls(fn), lastNow
 //@   ensures[C01:own-level] on ==> appended[l] == old(appended[l]) + 1 && lastLevel[l] == TraceLevel && lastTag[l] == tag.tag
 //@   ensures[C01,C10:disabled] !on ==> appended[l] == old(appended[l]) && calls(TimeNow) == old(calls(TimeNow)) && calls(StringFromContext) == old(calls(StringFromContext)) && calls(FieldsFromContext) == old(calls(FieldsFromContext))
 //@   ensures[C10:lazy-once] calls(fn) == old(calls(fn)) + (on ? 1 : 0)
@@ -165,7 +165,7 @@ package log
 //@   requires tag != nil
 //@   let l = loggerOf(tag)
 //@   let on = enable(Logger.GetLevel(l), TraceLevel)
-//@   modifies appended[l], lastLevel[l], lastTag[l], lastFields[l], lastFile[l], lastLine[l], lastTime[l], lastCtxString[l], lastCtxFields[l], all(Event), calls(TimeNow), calls(StringFromContext), calls(FieldsFromContext), elems(Field)
+//@   modifies appended[l], lastLevel[l], lastTag[l], lastFields[l], lastFile[l], lastLine[l], lastTime[l], lastCtxString[l], lastCtxFields[l], all(Event), calls(TimeNow), calls(StringFromContext), calls(FieldsFromContext), elems(Field), lastNow
 //@   ensures[C01:own-level] on ==> appended[l] == old(appended[l]) + 1 && lastLevel[l] == TraceLevel && lastTag[l] == tag.tag
 //@   ensures[C01,C10:disabled] !on ==> appended[l] == old(appended[l]) && calls(TimeNow) == old(calls(TimeNow)) && calls(StringFromContext) == old(calls(StringFromContext)) && calls(FieldsFromContext) == old(calls(FieldsFromContext))
 //@   ensures[C11:caller] on && enableCaller && deep(up($frame, 1)) ==> lastFile[l] == frame_file(up($frame, 1)) && lastLine[l] == frame_line(up($frame, 1))
@@ -175,7 +175,7 @@ package log
 //@   requires fn != nil
 //@   let l = loggerOf(tag)
 //@   let on = enable(Logger.GetLevel(l), DebugLevel)
-//@   modifies appended[l], lastLevel[l], lastTag[l], lastFields[l], lastFile[l], lastLine[l], lastTime[l], lastCtxString[l], lastCtxFields[l], all(Event), calls(TimeNow), calls(StringFromContext), calls(FieldsFromContext), calls(fn)
+//@   modifies appended[l], lastLevel[l], lastTag[l], lastFields[l], lastFile[l], lastLine[l], lastTime[l], lastCtxString[l], lastCtxFields[l], all(Event), calls(TimeNow), calls(StringFromContext), calls(FieldsFromContext), calls(fn), lastNow
 //@   ensures[C01:own-level] on ==> appended[l] == old(appended[l]) + 1 && lastLevel[l] == DebugLevel && lastTag[l] == tag.tag
 //@   ensures[C01,C10:disabled] !on ==> appended[l] == old(appended[l]) && calls(TimeNow) == old(calls(TimeNow)) && calls(StringFromContext) == old(calls(StringFromContext)) && calls(FieldsFromContext) == old(calls(FieldsFromContext))
 //@   ensures[C10:lazy-once] calls(fn) == old(calls(fn)) + (on ? 1 : 0)
@@ -186,7 +186,7 @@ package log
 //@   requires tag != nil
 //@   let l = loggerOf(tag)
 //@   let on = enable(Logger.GetLevel(l), DebugLevel)
-//@   modifies appended[l], lastLevel[l], lastTag[l], lastFields[l], lastFile[l], lastLine[l], lastTime[l], lastCtxString[l], lastCtxFields[l], all(Event), calls(TimeNow), calls(StringFromContext), calls(FieldsFromContext), elems(Field)
+//@   modifies appended[l], lastLevel[l], lastTag[l], lastFields[l], lastFile[l], lastLine[l], lastTime[l], lastCtxString[l], lastCtxFields[l], all(Event), calls(TimeNow), calls(StringFromContext), calls(FieldsFromContext), elems(Field), lastNow
 //@   ensures[C01:own-level] on ==> appended[l] == old(appended[l]) + 1 && lastLevel[l] == DebugLevel && lastTag[l] == tag.tag
 //@   ensures[C01,C10:disabled] !on ==> appended[l] == old(appended[l]) && calls(TimeNow) == old(calls(TimeNow)) && calls(StringFromContext) == old(calls(StringFromContext)) && calls(FieldsFromContext) == old(calls(FieldsFromContext))
 //@   ensures[C11:caller] on && enableCaller && deep(up($frame, 1)) ==> lastFile[l] == frame_file(up($frame, 1)) && lastLine[l] == frame_line(up($frame, 1))
@@ -204,7 +204,7 @@ package log
 //@   requires tag != nil
 //@   let l = loggerOf(tag)
 //@   let on = enable(Logger.GetLevel(l), InfoLevel)
-//@   modifies appended[l], lastLevel[l], lastTag[l], lastFields[l], lastFile[l], lastLine[l], lastTime[l], lastCtxString[l], lastCtxFields[l], all(Event), calls(TimeNow), calls(StringFromContext), calls(FieldsFromContext), elems(Field)
+//@   modifies appended[l], lastLevel[l], lastTag[l], lastFields[l], lastFile[l], lastLine[l], lastTime[l], lastCtxString[l], lastCtxFields[l], all(Event), calls(TimeNow), calls(StringFromContext), calls(FieldsFromContext), elems(Field), lastNow
 //@   ensures[C01:own-level] on ==> appended[l] == old(appended[l]) + 1 && lastLevel[l] == InfoLevel && lastTag[l] == tag.tag
 //@   ensures[C01,C10:disabled] !on ==> appended[l] == old(appended[l]) && calls(TimeNow) == old(calls(TimeNow)) && calls(StringFromContext) == old(calls(StringFromContext)) && calls(FieldsFromContext) == old(calls(FieldsFromContext))
 //@   ensures[C11:caller] on && enableCaller && deep(up($frame, 1)) ==> lastFile[l] == frame_file(up($frame, 1)) && lastLine[l] == frame_line(up($frame, 1))
@@ -222,7 +222,7 @@ package log
 //@   requires tag != nil
 //@   let l = loggerOf(tag)
 //@   let on = enable(Logger.GetLevel(l), WarnLevel)
-//@   modifies appended[l], lastLevel[l], lastTag[l], lastFields[l], lastFile[l], lastLine[l], lastTime[l], lastCtxString[l], lastCtxFields[l], all(Event), calls(TimeNow), calls(StringFromContext), calls(FieldsFromContext), elems(Field)
+//@   modifies appended[l], lastLevel[l], lastTag[l], lastFields[l], lastFile[l], lastLine[l], lastTime[l], lastCtxString[l], lastCtxFields[l], all(Event), calls(TimeNow), calls(StringFromContext), calls(FieldsFromContext), elems(Field), lastNow
 //@   ensures[C01:own-level] on ==> appended[l] == old(appended[l]) + 1 && lastLevel[l] == WarnLevel && lastTag[l] == tag.tag
 //@   ensures[C01,C10:disabled] !on ==> appended[l] == old(appended[l]) && calls(TimeNow) == old(calls(TimeNow)) && calls(StringFromContext) == old(calls(StringFromContext)) && calls(FieldsFromContext) == old(calls(FieldsFromContext))
 //@   ensures[C11:caller] on && enableCaller && deep(up($frame, 1)) ==> lastFile[l] == frame_file(up($frame, 1)) && lastLine[l] == frame_line(up($frame, 1))
@@ -240,7 +240,7 @@ package log
 //@   requires tag != nil
 //@   let l = loggerOf(tag)
 //@   let on = enable(Logger.GetLevel(l), ErrorLevel)
-//@   modifies appended[l], lastLevel[l], lastTag[l], lastFields[l], lastFile[l], lastLine[l], lastTime[l], lastCtxString[l], lastCtxFields[l], all(Event), calls(TimeNow), calls(StringFromContext), calls(FieldsFromContext), elems(Field)
+//@   modifies appended[l], lastLevel[l], lastTag[l], lastFields[l], lastFile[l], lastLine[l], lastTime[l], lastCtxString[l], lastCtxFields[l], all(Event), calls(TimeNow), calls(StringFromContext), calls(FieldsFromContext), elems(Field), lastNow
 //@   ensures[C01:own-level] on ==> appended[l] == old(appended[l]) + 1 && lastLevel[l] == ErrorLevel && lastTag[l] == tag.tag
 //@   ensures[C01,C10:disabled] !on ==> appended[l] == old(appended[l]) && calls(TimeNow) == old(calls(TimeNow)) && calls(StringFromContext) == old(calls(StringFromContext)) && calls(FieldsFromContext) == old(calls(FieldsFromContext))
 //@   ensures[C11:caller] on && enableCaller && deep(up($frame, 1)) ==> lastFile[l] == frame_file(up($frame, 1)) && lastLine[l] == frame_line(up($frame, 1))
@@ -258,7 +258,7 @@ package log
 //@   requires tag != nil
 //@   let l = loggerOf(tag)
 //@   let on = enable(Logger.GetLevel(l), PanicLevel)
-//@   modifies appended[l], lastLevel[l], lastTag[l], lastFields[l], lastFile[l], lastLine[l], lastTime[l], lastCtxString[l], lastCtxFields[l], all(Event), calls(TimeNow), calls(StringFromContext), calls(FieldsFromContext), elems(Field)
+//@   modifies appended[l], lastLevel[l], lastTag[l], lastFields[l], lastFile[l], lastLine[l], lastTime[l], lastCtxString[l], lastCtxFields[l], all(Event), calls(TimeNow), calls(StringFromContext), calls(FieldsFromContext), elems(Field), lastNow
 //@   ensures[C01:own-level] on ==> appended[l] == old(appended[l]) + 1 && lastLevel[l] == PanicLevel && lastTag[l] == tag.tag
 //@   ensures[C01,C10:disabled] !on ==> appended[l] == old(appended[l]) && calls(TimeNow) == old(calls(TimeNow)) && calls(StringFromContext) == old(calls(StringFromContext)) && calls(FieldsFromContext) == old(calls(FieldsFromContext))
 //@   ensures[C11:caller] on && enableCaller && deep(up($frame, 1)) ==> lastFile[l] == frame_file(up($frame, 1)) && lastLine[l] == frame_line(up($frame, 1))
@@ -276,7 +276,7 @@ package log
 //@   requires tag != nil
 //@   let l = loggerOf(tag)
 //@   let on = enable(Logger.GetLevel(l), FatalLevel)
-//@   modifies appended[l], lastLevel[l], lastTag[l], lastFields[l], lastFile[l], lastLine[l], lastTime[l], lastCtxString[l], lastCtxFields[l], all(Event), calls(TimeNow), calls(StringFromContext), calls(FieldsFromContext), elems(Field)
+//@   modifies appended[l], lastLevel[l], lastTag[l], lastFields[l], lastFile[l], lastLine[l], lastTime[l], lastCtxString[l], lastCtxFields[l], all(Event), calls(TimeNow), calls(StringFromContext), calls(FieldsFromContext), elems(Field), lastNow
 //@   ensures[C01:own-level] on ==> appended[l] == old(appended[l]) + 1 && lastLevel[l] == FatalLevel && lastTag[l] == tag.tag
 //@   ensures[C01,C10:disabled] !on ==> appended[l] == old(appended[l]) && calls(TimeNow) == old(calls(TimeNow)) && calls(StringFromContext) == old(calls(StringFromContext)) && calls(FieldsFromContext) == old(calls(FieldsFromContext))
 //@   ensures[C11:caller] on && enableCaller && deep(up($frame, 1)) ==> lastFile[l] == frame_file(up($frame, 1)) && lastLine[l] == frame_line(up($frame, 1))
@@ -557,3 +557,42 @@ package log
 //@   loop 1 invariant[C14:range] 0 <= i && i <= len(suffix)
 //@   loop 1 invariant[C14:digits] forall k int :: 0 <= k && k < i ==> '0' <= suffix[k] && suffix[k] <= '9'
 //@   replay name = name; fileName = c.FileName
+
+// ---- C01: chained ranges of appender references -------------------------------------------------------
+
+// Lower bounds never change (sorting moves pointers, chaining only rewrites upper bounds), so the
+// ordering facts are stated over the lower bounds at entry: old(...) -- see the clause lower-bounds-kept.
+//@ spec fun minCode(r *AppenderRef) int = r.Level.MinLevel.code
+//@ spec fun minCode0(r *AppenderRef) int = old(r.Level.MinLevel.code)
+//@ spec fun minLevel0(r *AppenderRef) Level = old(r.Level.MinLevel)
+//@ spec fun sortedRefs(c *AppenderRefs) bool = forall a int, b int :: 0 <= a && a < b && b < len(c.AppenderRefs) ==> minCode0(c.AppenderRefs[a]) <= minCode0(c.AppenderRefs[b])
+//@ spec fun distinctRefs(c *AppenderRefs) bool = forall a int, b int :: 0 <= a && a < b && b < len(c.AppenderRefs) ==> c.AppenderRefs[a] != c.AppenderRefs[b]
+
+// M is where an open-ended reference r must end: the least lower bound among the logger's references
+// that is strictly greater than r's own, or MAX when there is none
+//@ spec rec fun isNextHigher(c *AppenderRefs, r *AppenderRef, M Level) bool = (exists j int :: 0 <= j && j < len(c.AppenderRefs) && minCode0(c.AppenderRefs[j]) > minCode0(r) && M == minLevel0(c.AppenderRefs[j]) && (forall i int :: 0 <= i && i < len(c.AppenderRefs) && minCode0(c.AppenderRefs[i]) > minCode0(r) ==> minCode0(c.AppenderRefs[i]) >= minCode0(c.AppenderRefs[j]))) || ((forall j int :: 0 <= j && j < len(c.AppenderRefs) ==> minCode0(c.AppenderRefs[j]) <= minCode0(r)) && M == MaxLevel)
+
+//@ spec rec fun chained(c *AppenderRefs, r *AppenderRef) bool = r.Level.MinLevel == old(r.Level.MinLevel) && (old(r.Level.MaxLevel) != MaxLevel ==> r.Level.MaxLevel == old(r.Level.MaxLevel)) && (old(r.Level.MaxLevel) == MaxLevel ==> isNextHigher(c, r, r.Level.MaxLevel))
+
+//@ spec fun minKept(r *AppenderRef) bool = r.Level.MinLevel == old(r.Level.MinLevel)
+//@ spec fun maxKept(r *AppenderRef) bool = r.Level.MaxLevel == old(r.Level.MaxLevel)
+
+//@ func (*AppenderRefs).sortByLevel$1
+//@   requires c != nil && 0 <= i && i < len(c.AppenderRefs) && 0 <= j && j < len(c.AppenderRefs) && c.AppenderRefs[i] != nil && c.AppenderRefs[j] != nil
+//@   modifies nothing
+//@   ensures[C01:less-by-lower-bound] result == (minCode(c.AppenderRefs[i]) < minCode(c.AppenderRefs[j]))
+
+//@ func (*AppenderRefs).sortByLevel
+//@   requires c != nil && wfRefs(c) && distinctRefs(c)
+//@   modifies elemsof(c.AppenderRefs), all(AppenderRef.Level)
+//@   ensures[C01:still-wf] wfRefs(c) && distinctRefs(c) && sortedRefs(c) && len(c.AppenderRefs) == old(len(c.AppenderRefs))
+//@   ensures[C01:same-refs] forall k int :: 0 <= k && k < len(c.AppenderRefs) ==> (exists j int :: 0 <= j && j < len(c.AppenderRefs) && c.AppenderRefs[k] == old(c.AppenderRefs[j]))
+//@   ensures[C01:chain] forall k int :: 0 <= k && k < len(c.AppenderRefs) ==> chained(c, c.AppenderRefs[k])
+//@   loop 1 invariant[C01:range] 0 - 1 <= i && i <= len(c.AppenderRefs) - 1 && len(c.AppenderRefs) == old(len(c.AppenderRefs))
+//@   loop 1 invariant[C01:wf] wfRefs(c)
+//@   loop 1 invariant[C01:distinct] distinctRefs(c)
+//@   loop 1 invariant[C01:sorted] sortedRefs(c)
+//@   loop 1 invariant[C01:lower-bounds-kept] forall k int :: 0 <= k && k < len(c.AppenderRefs) ==> minKept(c.AppenderRefs[k])
+//@   loop 1 invariant[C01:untouched-below] forall k int :: 0 <= k && k <= i ==> maxKept(c.AppenderRefs[k])
+//@   loop 1 invariant[C01:chained-above] forall k int :: i < k && k < len(c.AppenderRefs) ==> chained(c, c.AppenderRefs[k])
+//@   loop 1 invariant[C01:next] (i + 1 < len(c.AppenderRefs) ==> isNextHigher(c, c.AppenderRefs[i+1], next)) && (i + 1 >= len(c.AppenderRefs) ==> next == MaxLevel)
